@@ -43,7 +43,7 @@ class IndexableArray(RaggedBase):
         possible row selects the same cells as the clipped value
         """
         bound = int(_np.iinfo(ViewBase._dtype).max//2)
-        start, stop, step = (i if i is None else max(-bound, min(bound, i))
+        start, stop, step = (i if i is None else max(-bound, min(bound, int(i) if isinstance(i, _np.integer) else i))
                              for i in (col_slice.start, col_slice.stop, col_slice.step))
         return slice(start, stop, step)
 
